@@ -34,8 +34,8 @@ def known_finding(res):
 
 def run(res):
     return tableprop.run(
-        res, PROP, NOTE, ["mixed", "mixed", "deep"], 16, 400,
-        "as C08 with more queries sent/received and time steps around 15 min; c10_ok recomputes from the event history alone: "
+        res, PROP, NOTE, ["mixed", "status", "deep", "status"], 16, 400,
+        "as C08 with more queries sent/received and time steps around 15 min, plus per-contact histories (1-3 contacts, 30-90 events each: answers, hearsay, queries sent/received, gaps around 15 min); c10_ok recomputes from the event history alone: "
         "reported good only with an answer or a received query (while known) in the last 15 min; an answer makes the contact good "
         "at once; two queries sent while not good without answer or re-mention: not reported.",
         ["A-TIME", "known finding F-C10 (hearsay re-mention after bad) is excluded from c10_ok's two-unanswered clause and "
